@@ -169,6 +169,7 @@ class Run:
                 return
             gb = b
         flags = list(DEFAULT_CHECKS) if not s.get("no_default_checks") else []
+        if s.get("no_conversion_check"): flags = [f for f in flags if f != "--conversion-check"]     # implementation-defined narrowing (not UB) is part of the code under test
         flags += s.get("cbmc", [])
         if d is not None and "--sat-solver" not in flags: flags += ["--sat-solver", "cadical"]
         if "--object-bits" not in flags: flags += ["--object-bits", "12"]
